@@ -35,6 +35,18 @@ func isValidVarName(r byte) bool {
 	return (r >= 'A' && r <= 'Z') || (r >= 'a' && r <= 'z') || (r >= '0' && r <= '9') || r == '_' || r >= 0x80
 }
 
+// endsWithCloseTag reports whether b ends with a close tag, with or without
+// the single line terminator (LF, CRLF or CR) the lexer folds into it.
+func endsWithCloseTag(b []byte) bool {
+	for _, nl := range []string{"", "\n", "\r\n", "\r"} {
+		if bytes.HasSuffix(b, []byte("?>"+nl)) {
+			return true
+		}
+	}
+
+	return false
+}
+
 func (p *printer) write(b []byte) {
 	if len(b) == 0 {
 		return
@@ -421,7 +433,7 @@ func (p *printer) StmtIf(n *ast.StmtIf) {
 
 func (p *printer) StmtInlineHtml(n *ast.StmtInlineHtml) {
 	p.state = PrinterStatePHP
-	if p.last != nil && !bytes.HasSuffix(p.last, []byte("?>")) && !bytes.HasSuffix(p.last, []byte("?>\n")) {
+	if p.last != nil && !endsWithCloseTag(p.last) {
 		p.write([]byte("?>"))
 	}
 
